@@ -136,6 +136,12 @@ class Server:
         self.log(event(ev="env", fn="eof"))
         self.eof = True
 
+    def cut(self):
+        """the peer dies: whatever the client socket has not received yet is lost (possibly mid-record)"""
+        self.log(event(ev="env", fn="cut"))
+        self.records = []
+        self.eof = True
+
     def units(self):
         """Abstract units in flight: a record = header | one unit per plaintext byte (the last one carries the
         tag), non-data records = header | body."""
@@ -428,3 +434,337 @@ def run_schedule(sc):
                   data=res["data"]))
         results.append(res)
     return events, results, notes
+
+
+# --------------------------------------------------------------------------------------- TLC side
+
+INVS = ["TypeOK", "NoPlaintextOnWire", "PlaintextInOrderNoLossNoDup", "NoBusyLoop", "EOFHandling", "CloseOrder",
+        "TimeoutPropagates", "WholeLogVerdictOk", "EngineConservation", "NeverStuck"]
+# design-level deviation -> the clause TLC must refute it with (checked alone)
+BUGS = {"eof_not_fed": "NoBusyLoop", "send_drops": "PlaintextInOrderNoLossNoDup",
+        "makefile_drops": "PlaintextInOrderNoLossNoDup", "close_twice": "CloseOrder",
+        "timeout_dropped": "TimeoutPropagates", "plaintext_flush": "NoPlaintextOnWire",
+        "ragged_silent": "EOFHandling"}
+MC_CFG = """SPECIFICATION Spec
+CONSTANTS
+  HsRecs = {hsrecs}
+  Suppress = {sup}
+  SrvSizes = {srv}
+  MaxSrvWrites = {maxw}
+  ReadSizes = {rs}
+  IntoSizes = {ins}
+  MfSizes = {mfs}
+  SendSizes = {ss}
+  Segs = {segs}
+  HsSegs = {hsegs}
+  Misc = {misc}
+  ReadFns = {rfns}
+  IdleEnvAt = {idle}
+  MaxOps = {maxops}
+  MaxTimeouts = {maxt}
+  Bug = "{bug}"
+  ShardK = {K}
+  ShardS = {S}
+  EmitOn = {emit}
+{invs}
+CHECK_DEADLOCK FALSE
+"""
+TRACE_CFG = MC_CFG.replace("SPECIFICATION Spec", "SPECIFICATION TSpec").replace("  ShardK = {K}\n  ShardS = {S}\n  EmitOn = {emit}\n", "")
+ALLMISC = '{"unwrap", "settimeout", "gettimeout"}'
+BASE = dict(sup="{TRUE, FALSE}", srv="{2}", maxw=2, rs="{1, 8}", ins="{0}", mfs="{1, 3}", ss="{}", segs="{1, 99}",
+            hsegs="{99}", misc="{}", rfns='{"recv", "recv_into", "mf_read"}', idle="{1}", maxops=2, maxt=0)
+PLANS = {
+    # every way of reading x every segmentation of up to two records x clean / ragged / mid-record EOF
+    "reads": dict(BASE),
+    # send / sendall / unwrap / close / timeouts around one record
+    "writes": dict(BASE, maxw=1, rs="{8}", rfns='{"recv"}', ins="{}", mfs="{}", ss="{2}", misc=ALLMISC, maxt=1),
+    # the handshake in __init__ under every segmentation of the server's flight, EOF and timeout
+    "handshake": dict(BASE, hsegs="{1, 3, 99}", maxops=0, idle="{}", rfns="{}", rs="{}", ins="{}", mfs="{}"),
+    # thorough: deeper
+    "reads3": dict(BASE, srv="{1, 2}", rs="{0, 1, 8}", ins="{0, 2}", segs="{1, 2, 99}", maxops=3),
+    "writes3": dict(BASE, maxw=2, rs="{1, 8}", rfns='{"recv", "read"}', ins="{}", mfs="{}", ss="{1, 3}", misc=ALLMISC,
+                    maxt=1, maxops=3, segs="{1, 2, 99}"),
+    "mixed": dict(BASE, srv="{1, 2}", rs="{1, 8}", ins="{0}", mfs="{3}", ss="{2}", misc=ALLMISC, maxt=1, maxops=2,
+                  hsegs="{4, 99}", segs="{1, 2, 99}"),
+    "bugs": dict(BASE, maxw=1, rs="{8}", ins="{0}", mfs="{3}", ss="{2}", misc=ALLMISC, maxt=1, sup="{FALSE}"),
+}
+
+
+def mc_cfg(plan, hsrecs, invs, bug="none", K=1, S=0, emit=False):
+    return MC_CFG.format(hsrecs=hsrecs, bug=bug, K=K, S=S, emit="TRUE" if emit else "FALSE",
+                         invs="\n".join("INVARIANT " + i for i in invs), **PLANS[plan])
+
+
+def measure_hsrecs():
+    """How many TLS records the real server's handshake flight has (a fact about OpenSSL, not urllib3)."""
+    notes = []
+    srv = Server(pn.World.get(), notes.append)
+    cli_in, cli_out = ssl.MemoryBIO(), ssl.MemoryBIO()
+    obj = ssl.create_default_context(cafile=pn.World.get().ca_path).wrap_bio(cli_in, cli_out, server_hostname=HOST)
+    try:
+        obj.do_handshake()
+    except ssl.SSLWantReadError:
+        pass
+    srv.feed(cli_out.read())
+    n = len(srv.records)
+    if not 1 <= n <= 12:
+        raise tlc.MachineryError(f"cannot measure the server's handshake flight ({n} records)")
+    return n
+
+
+PROJ = {"op": ("fn", "n"), "call": ("fn", "res"), "ssend": ("res",), "srecv": ("res",), "sclose": (), "ssettimeout": ("v",),
+        "sgettimeout": ("v",), "env": ("fn", "n"), "srvgot": ("res", "n", "data"), "ret": ("fn", "res", "exc", "kind", "n", "data")}
+
+
+def project(e):
+    out = {"ev": e["ev"], "op": e["op"]}
+    for f in PROJ.get(e["ev"], ()):
+        out[f] = list(e[f]) if f == "data" else e[f]
+    if e["ev"] == "call" and e["res"] == "ret" and e["fn"] in ("read", "write"):
+        out["n"] = e["n"]
+    if e["ev"] in ("ssend", "srecv"):
+        out["moved"] = e["n"] > 0
+    return out
+
+
+def diff(expected, got):
+    for i, (a, b) in enumerate(zip(expected, got)):
+        pa, pb = project(a), project(b)
+        if pa != pb:
+            return f"event {i + 1}: model {pa}, real {pb}"
+    if len(expected) != len(got):
+        longer, who = (expected, "model") if len(expected) > len(got) else (got, "real run")
+        return f"only the {who} goes on after event {min(len(expected), len(got))}: {project(longer[min(len(expected), len(got))])}"
+    return None
+
+
+def norm_sc(sc):
+    for e in sc["log"]:
+        e["data"] = list(e["data"])
+    for s in sc["steps"]:
+        if s["t"] == "op" and s["fn"] == "recv_into":
+            s["buf"] = 4
+        if s["t"] == "env" and s["a"] == "close":
+            s["a"] = "close"
+    return sc
+
+
+def sc_key(sc):
+    return hashlib.md5(json.dumps([sc["cfg"], [[s["t"], s["fn"], s["n"], s["a"], s["u"], s["between"]] for s in sc["steps"]]],
+                                  sort_keys=True).encode()).hexdigest()[:16]
+
+
+def nontrivial(sc):
+    return any(s["t"] in ("env", "timeout") or (s["t"] == "recv" and s["u"] not in (99,)) for s in sc["steps"]) and \
+        sum(1 for s in sc["steps"] if s["t"] == "op") > 2
+
+
+def validate(traces, hsrecs):
+    if not traces:
+        return []
+    cfg = TRACE_CFG.format(hsrecs=hsrecs, bug="none", invs="", **PLANS["reads"])
+    r = tlc.run("SSLTransport_Trace", cfg, workers=1, files={"traces.json": json.dumps(traces)},
+                env={"TRACE_FILE": "traces.json"}, timeout=3600, heap="2g")
+    ver = {t[0]: t for t in tlc.tagged_tuples(r.out, "VERDICT")}
+    if len(ver) != len(traces):
+        raise tlc.MachineryError(f"SSLTransport_Trace: {len(ver)} verdicts for {len(traces)} traces\n{r.out[-2000:]}")
+    return [(ver[i + 1][1], ver[i + 1][2]) for i in range(len(traces))]
+
+
+def _emit(args):
+    plan, hsrecs, K, S = args
+    r = tlc.run("MC_SSLTransport", mc_cfg(plan, hsrecs, ["Emit"], K=K, S=S, emit=True), workers=1, timeout=7200, heap="2g")
+    scs = [norm_sc(sc) for sc in tlc.tagged_json(r.out, "SC")]
+    for sc in scs:
+        sc["origin"] = plan
+    return {"plan": plan, "scs": scs, "distinct": r.distinct, "generated": r.generated, "wall": r.wall}
+
+
+def _stage1(args):
+    name, plan, hsrecs, invs, bug, cov = args
+    r = tlc.run("MC_SSLTransport", mc_cfg(plan, hsrecs, invs, bug=bug), workers=max(1, min(2, J // 4)), coverage=cov,
+                timeout=7200, heap="3g", expect_fail=True)
+    return {"name": name, "plan": plan, "bug": bug, "distinct": r.distinct, "generated": r.generated, "depth": r.depth,
+            "wall": r.wall, "violated": r.violated, "error": r.error, "coverage": r.coverage, "tail": r.out[-1500:]}
+
+
+def _drive(scs):
+    return [run_schedule(sc) for sc in scs]
+
+
+def _validate(args):
+    return validate(*args)
+
+
+def chunks(xs, n):
+    step = max(1, -(-len(xs) // max(1, n)))
+    return [xs[i:i + step] for i in range(0, len(xs), step)]
+
+
+def corrupted(scenarios):
+    """Monitor self-test: the model's own expected logs, corrupted in one field, must be rejected by TLC with
+    exactly the clause the field belongs to."""
+    import copy
+    out = []
+
+    def pick(pred):
+        for sc in scenarios:
+            if pred(sc):
+                return sc
+        raise tlc.MachineryError("monitor self-test: no base schedule among the emitted ones")
+
+    def has(sc, p):
+        return any(p(e) for e in sc["log"])
+
+    def mutate(sc, sel, change, clause):
+        log = copy.deepcopy(sc["log"])
+        change(next(e for e in log if sel(e)))
+        out.append(({"cfg": sc["cfg"], "events": log}, clause))
+
+    readret = lambda e: e["ev"] == "ret" and e["fn"] in READS and e["data"]                      # noqa: E731
+    rd = pick(lambda sc: has(sc, readret))
+    mutate(rd, readret, lambda e: e.update(data=[(x + 1) % 251 for x in e["data"]]), "PlaintextInOrderNoLossNoDup")
+    mutate(rd, lambda e: e["ev"] == "ssend", lambda e: e.update(plain=9), "NoPlaintextOnWire")
+    snd = pick(lambda sc: has(sc, lambda e: e["ev"] == "srvgot" and e["res"] == "data"))
+    mutate(snd, lambda e: e["ev"] == "srvgot" and e["res"] == "data", lambda e: e.update(data=e["data"][:-1], n=e["n"] - 1),
+           "PlaintextInOrderNoLossNoDup")
+    eof = pick(lambda sc: not sc["cfg"]["suppress"] and has(sc, lambda e: e["ev"] == "ret" and e["exc"] == "SSLEOFError"
+                                                              and e["fn"] == "recv"))
+    mutate(eof, lambda e: e["ev"] == "ret" and e["exc"] == "SSLEOFError",
+           lambda e: e.update(res="ok", exc="", kind="int", n=0), "EOFHandling")
+    mutate(eof, lambda e: e["ev"] == "srecv" and e["res"] == "eof", lambda e: e.update(res="data", n=0), "NoBusyLoop")
+    cl = pick(lambda sc: has(sc, lambda e: e["ev"] == "sclose"))
+    mutate(cl, lambda e: e["ev"] == "sclose", lambda e: e.update(ev="ssettimeout"), "CloseOrder")
+    tm = pick(lambda sc: has(sc, lambda e: e["ev"] == "ssettimeout"))
+    mutate(tm, lambda e: e["ev"] == "ssettimeout", lambda e: e.update(v=7), "TimeoutPropagates")
+    return out
+
+
+# --------------------------------------------------------------------------------------- the check
+
+def _book(rep, sc, events, results, notes, pos, clause, d):
+    rep.traces += 1
+    rep.evaluations += 1
+    if nontrivial(sc):
+        rep.nontrivial.add(sc_key(sc))
+    case = {"kind": "schedule", "schedule": {"cfg": sc["cfg"], "steps": sc["steps"], "log": sc.get("log")},
+            "recorded": events}
+    where = f"schedule {sc_key(sc)} ({sc.get('origin', '?')}: " + \
+            " ".join(s["fn"] + (f"({s['n']})" if s["n"] else "") for s in sc["steps"] if s["t"] == "op") + ")"
+    if clause != "ok":
+        ev = events[pos - 1] if 0 < pos <= len(events) else {}
+        what = f"SSLTransport {clause} at event {pos} { {k: v for k, v in ev.items() if v != BLANK.get(k)} } in {where}"
+        if clause in HARD:
+            rep.violation(clause, what, case)
+        else:
+            rep.drift.append(what)
+            rep.extra.setdefault("ssltransport_rule_breaks", {}).setdefault(clause, 0)
+            rep.extra["ssltransport_rule_breaks"][clause] += 1
+    elif notes:
+        rep.drift.append(f"SSLTransport: {notes[0]} in {where}")
+    elif d:
+        rep.drift.append(f"SSLTransport: {d} in {where}")
+
+
+def run(rep):
+    quick = rep.tier == "quick"
+    world = pn.World.get()
+    world.server_ctx("good", HOST)
+    rep.rule = (rep.rule + " | " if rep.rule else "") + \
+        ("SSLTransport: a schedule is one TLC behaviour of spec/SSLTransport.tla (API calls, peer actions, units per "
+         "socket.recv, timeouts) replayed on the real SSLTransport; non-trivial = more than one API call after __init__ "
+         "with a peer action, a timeout or a split record")
+    plans = ["reads", "writes", "handshake"] if quick else ["reads3", "writes3", "mixed", "handshake"]
+    K = 1 if quick else 4
+    nproc = min(J, 8 if quick else 16)
+    try:
+        hsrecs = measure_hsrecs()
+        rep.extra["ssltransport_hs_records"] = hsrecs
+        with mp.Pool(nproc) as pool:
+            emis = pool.map_async(_emit, [(p, hsrecs, K, s) for p in plans for s in range(K)])
+            s1jobs = [(f"MC_SSLTransport[{p}]", p, hsrecs, INVS, "none", True) for p in plans]
+            s1jobs += [(f"MC_SSLTransport[bugs,Bug={b}]", "bugs", hsrecs, [c], b, False) for b, c in BUGS.items()]
+            s1 = pool.map_async(_stage1, s1jobs)
+            scenarios, seen, emitted = [], set(), 0
+            for o in emis.get():
+                emitted += len(o["scs"])
+                rep.stage1.append({"run": f"SSLTransport emission {o['plan']}", "distinct_states": o["distinct"],
+                                   "states_generated": o["generated"], "wall_s": round(o["wall"], 1),
+                                   "scenarios": len(o["scs"])})
+                for sc in o["scs"]:
+                    if sc_key(sc) not in seen:
+                        seen.add(sc_key(sc))
+                        scenarios.append(sc)
+            if emitted < (1000 if quick else 10000):
+                raise tlc.MachineryError(f"SSLTransport: only {emitted} schedules emitted")
+            runs = [r for part in pool.map(_drive, chunks(scenarios, nproc * 4)) for r in part]
+            if len(runs) != len(scenarios):
+                raise tlc.MachineryError(f"SSLTransport: replayed {len(runs)} of {len(scenarios)} schedules")
+            traces = [{"cfg": sc["cfg"], "events": r[0]} for sc, r in zip(scenarios, runs)]
+            probes = corrupted(scenarios)
+            parts = chunks(traces + [t for t, _ in probes], min(J, 4 if quick else 12))
+            verdicts = [v for part in pool.map(_validate, [(p, hsrecs) for p in parts]) for v in part]
+            for (_, want), (pos, clause) in zip(probes, verdicts[len(traces):]):
+                if clause != want:
+                    raise tlc.MachineryError(f"SSLTransport monitor self-test: a log corrupted to break {want} was judged {clause}")
+            rep.extra["ssltransport_monitor_selftest_rejected"] = len(probes)
+            for sc, (events, results, notes), (pos, clause) in zip(scenarios, runs, verdicts):
+                _book(rep, sc, events, results, notes, pos, clause, diff(sc["log"], events))
+            if scenarios:
+                sc, (events, _, _) = next(((s, r) for s, r in zip(scenarios, runs) if nontrivial(s)), (scenarios[0], runs[0]))
+                rep.sample({"ssltransport_schedule": [{k: v for k, v in s.items() if v not in ("", 0, False)} for s in sc["steps"]],
+                            "recorded": [{k: v for k, v in e.items() if v != BLANK[k]} for e in events][:40]}, cap=8)
+            rep.extra["ssltransport_schedules"] = len(scenarios)
+            cov = {}
+            for o in s1.get():
+                rep.stage1.append({"run": o["name"], "distinct_states": o["distinct"], "states_generated": o["generated"],
+                                   "depth": o["depth"], "wall_s": round(o["wall"], 1), "violated": o["violated"]})
+                if o["error"]:
+                    raise tlc.MachineryError(f"{o['name']}: {o['error']}\n{o['tail']}")
+                if o["bug"] == "none":
+                    rep.states += o["distinct"]
+                    rep.transitions += o["generated"]
+                    if o["violated"]:
+                        rep.drift.append(f"SSLTransport design model: TLC reports {o['violated']} in {o['name']}")
+                    for a, (_, tot) in o["coverage"].items():
+                        cov[a] = cov.get(a, 0) + tot
+                elif o["violated"] != [BUGS[o["bug"]]]:
+                    raise tlc.MachineryError(f"{o['name']}: the deviation should be refuted with {BUGS[o['bug']]}, TLC "
+                                             f"reported {o['violated']} (vacuous or mis-stated clause)")
+            dead = [a for a, t in cov.items() if t == 0]
+            if dead or len(cov) < 15:
+                raise tlc.MachineryError(f"SSLTransport: actions never taken in any plan: {dead} ({len(cov)} actions seen)")
+            rep.extra["ssltransport_action_coverage"] = cov
+            rep.extra["ssltransport_deviations_refuted"] = sorted(BUGS)
+    finally:
+        shutil.rmtree(world.dir, ignore_errors=True)
+    return rep
+
+
+def run_stage(rep):
+    """Extra stage of C09: the TLS-in-TLS transport under the tunnelled request."""
+    rep.extra_module = "vh.ssltransport"
+    try:
+        keep_rule, keep_samples = rep.rule, list(rep.samples)
+        run(rep)
+        rep.extra["ssltransport_rule"] = rep.rule
+        rep.rule, rep.samples = keep_rule, keep_samples or rep.samples
+    finally:
+        rep.extra_module = None
+    return rep
+
+
+def replay(rep, path):
+    case = json.load(open(path))["case"]
+    sc = case["schedule"]
+    world = pn.World.get()
+    try:
+        hsrecs = measure_hsrecs()
+        events, results, notes = run_schedule(sc)
+        (pos, clause), = validate([{"cfg": sc["cfg"], "events": events}], hsrecs)
+        rep.rule = "replay of one recorded schedule"
+        rep.nontrivial.update({1, 2})
+        rep.states = rep.transitions = 1
+        _book(rep, sc, events, results, notes, pos, clause, diff(sc["log"], events) if sc.get("log") else None)
+    finally:
+        shutil.rmtree(world.dir, ignore_errors=True)
